@@ -28,13 +28,17 @@ THEOREMS = [
     "Typedpy.C14.constant_required_dropped",
     "Typedpy.C14.second_base_required_dropped",
     "Typedpy.C14.inheritance_example",
+    "Typedpy.C14.keys_of_example",
     "Typedpy.reachable_ok",
 ]
 RULE = ("histories of class statements: DAG hierarchies of 1..4 classes (single / two struct bases, plain mixins "
         "before or after, ImmutableStructure / FinalStructure / AbstractStructure roots), fields from the type-directed "
         "declaration generator with `default=` / annotation `=` / class-form defaults (literal or generating function), "
         "Constants, `_required` / `_optional` / `_additional_properties` / `_ignore_none` / `_immutable` at every level, "
-        "redeclaration of inherited names, other class attributes; every third case appends every single-fault variant "
+        "redeclaration of inherited names, other class attributes, @keys_of with 1..3 enum classes over own and inherited "
+        "names (p=0.15, a third of them with one member of one enum - any argument position - not a field); every third "
+        "case appends every single-fault variant (keys_of: 1/2/3 enums x every position of the enum holding the missing "
+        "member, the other members being own / inherited fields) "
         "(with its fault-free control) for both guard settings drawn at random; built by type(name, bases, dict) or by "
         "exec of class-statement text; non-trivial = >= 2 class statements; distinct by sha256 of the case line")
 ASSUMPTIONS = [
@@ -80,8 +84,10 @@ def judge(case, impl, model):
                     continue   # the fault-free control does not define cleanly: no verdict
             if st.get("expect_raise") and "ok" in r:
                 nm = st.get("src", {}).get("name") or st.get("name")
-                fails.append((f"fault-accepted:{kind}",
+                key_kind = "keys-of-missing" if kind.startswith("keys-of-missing") else kind
+                fails.append((f"fault-accepted:{key_kind}",
                               f"class statement {nm} with fault '{kind}' did not raise: "
+                              + (json.dumps(st["src"].get("keysOf")) + " " if st.get("src", {}).get("keysOf") else "")
                               + json.dumps(st.get("src", {}).get("entries", [])[-1:])[:300]))
             if "err" in r and st["op"] == "define" and st["src"]["name"] in json.dumps(results[i + 1:i + 2]):
                 pass
@@ -90,6 +96,14 @@ def judge(case, impl, model):
             continue
         obs = r["obs"]
         name = st["src"]["name"]
+        # @keys_of: a class the decorated statement yields has a field for every member of every enum
+        have = {n for n, _ in r["ok"]["fields"]}
+        for pos, members in enumerate(st["src"].get("keysOf") or []):
+            lacking = [n for n in members if n not in have]
+            if lacking:
+                fails.append(("fault-accepted:keys-of-missing",
+                              f"class statement {name} decorated with @keys_of({len(st['src']['keysOf'])} enums) did not raise "
+                              f"although members {lacking} of enum #{pos + 1} {members} are not fields (fields: {sorted(have)})"))
         for b in obs["bases"]:
             if b["missing_fields"]:
                 fails.append(("fields-not-superset", f"{name} lacks fields {b['missing_fields']} of base {b['base']}"))
